@@ -892,4 +892,237 @@ example : confirmLeaf Ops.float 5e-324 0.0 = true ∧ confirmComposite (pymax0 O
 /-- `exchange_atoms` applies: the two-atom example state admits the exchange -/
 example : (exchange Ops.rat exC ⟨5, 1/4⟩ [exA, exB] (0, none) (1, none)).isSome = true := by decide +kernel
 
+/-! ## Part H — the root-unit-active handlers (kinds 7, 8): a whole composite object moves
+
+`RootUnitActiveTwoCompositeObjectSummedBoundingPotentialEventHandler` (kind 7) thins: its bounding rate is
+`Σ max(0, b_ij)` and its true rate `max(0, Σ q_ij)`, both over ALL (active leaf `i`, target leaf `j`) pairs.
+`RootUnitActiveTwoLeafUnitEventHandler` (kind 8) does not thin (directly invertible potential; model: `sendRoot … 8`
+always passes the velocity), so C04 makes no statement about it beyond "it never draws a uniform number". -/
+
+section generic
+variable {α : Type} [Add α] [Sub α] [Mul α] [Div α] [Neg α] [LT α] [DecidableLT α] [LE α] [DecidableLE α] [BEq α]
+
+omit [Div α] [LE α] [DecidableLE α] [Neg α] in
+/-- time-slicing moves a unit, it never touches its velocity -/
+theorem timeSliceUnit_vel (o : Ops α) (c : Consts α) (et : Time α) (u : LUnit α) :
+    (timeSliceUnit o c et u).vel = u.vel := by
+  unfold timeSliceUnit
+  split
+  · rfl
+  · next h => simp [h]
+
+omit [Div α] [LE α] [DecidableLE α] [Neg α] in
+theorem timeSliceState_velocities (o : Ops α) (c : Consts α) (et : Time α) (st : List (CNode α)) :
+    velocities (timeSliceState o c et st) = velocities st := by
+  unfold velocities timeSliceState
+  induction st with
+  | nil => rfl
+  | cons r rs ih =>
+    simp only [List.map_cons, List.flatMap_cons, timeSliceUnit_vel, List.map_map]
+    rw [ih]
+    congr 2
+    apply List.map_congr_left
+    intro cw _
+    simp [timeSliceUnit_vel]
+
+omit [LE α] [DecidableLE α] in
+/-- **kind 7, every scalar type (in particular binary64)**: `send_out_state` confirms exactly when the two-leaf
+style comparison `factor_derivative > 0 and uniform(0, bound) < factor_derivative` holds, with
+`bound = Σ max(0.0, b_ij)` and `factor_derivative = Σ q_ij` over all pairs; an unconfirmed event returns the
+time-sliced branches (all velocities as handed in); the warning is a flag; a uniform number is drawn exactly when
+the factor derivative is positive, from `[0, bound]`. -/
+theorem sendRoot_spec (o : Ops α) (c : Consts α) (kind : Nat) (hk : kind ≠ 8) (uc : Bool) (et : Time α)
+    (ist branches : List (CNode α)) (bds qs : List α) (dr : Draw α) {st' cf w cs ins u}
+    (h : sendRoot o c kind uc et ist branches bds qs dr = .out st' cf w cs ins u) :
+    cf = confirmLeaf o (factorDerivative o qs) (dr.get o (summedBound o bds))
+      ∧ (cf = false → st' = timeSliceState o c et branches ∧ velocities st' = velocities branches)
+      ∧ w = warns o (summedBound o bds) (factorDerivative o qs) ∧ ins = []
+      ∧ (u = if o.ofInt 0 < factorDerivative o qs then some (summedBound o bds) else none) := by
+  have hk' : (kind == 8) = false := by simpa using hk
+  simp only [sendRoot, hk'] at h
+  simp only [confirmLeaf]
+  iterate 5 (all_goals (try split at h))
+  all_goals (try cases h)
+  all_goals simp_all [timeSliceState_velocities]
+
+omit [LE α] [DecidableLE α] in
+/-- kind 8 never thins: whenever it returns an out-state, the event is confirmed and no uniform number is drawn -/
+theorem sendRoot_invertible (o : Ops α) (c : Consts α) (uc : Bool) (et : Time α)
+    (ist branches : List (CNode α)) (bds qs : List α) (dr : Draw α) {st' cf w cs ins u}
+    (h : sendRoot o c 8 uc et ist branches bds qs dr = .out st' cf w cs ins u) :
+    cf = true ∧ w = false ∧ u = none ∧ cs = [] := by
+  simp only [sendRoot] at h
+  split at h
+  · split at h
+    · cases h; exact ⟨rfl, rfl, rfl, rfl⟩
+    · cases h
+  · next hne => exact absurd rfl hne
+
+end generic
+
+/-- **Kind 7 in the exact reading**: with bounding rate `B = Σ max(0, b_ij) > 0` and true rate
+`E = max(0, Σ q_ij) ≤ B` (sums over all pairs), decided with `random() = r ≥ 0`: confirmed iff `r < E/B`, i.e. with
+probability exactly `E/B ∈ [0,1]`; an unconfirmed event leaves every velocity unchanged; no warning. -/
+theorem root_thinning_exact (c : Consts ℚ) (kind : Nat) (hk : kind ≠ 8) (uc : Bool) (et : Time ℚ)
+    (ist branches : List (CNode ℚ)) (bds qs : List ℚ) (r : ℚ) (hB : 0 < summedBound Ops.rat bds)
+    (hE : max 0 qs.sum ≤ summedBound Ops.rat bds) (hr : 0 ≤ r) {st' cf w cs ins u}
+    (h : sendRoot Ops.rat c kind uc et ist branches bds qs (.unit r) = .out st' cf w cs ins u) :
+    (cf = true ↔ r < max 0 qs.sum / summedBound Ops.rat bds)
+      ∧ (cf = false → st' = timeSliceState Ops.rat c et branches ∧ velocities st' = velocities branches)
+      ∧ w = false ∧ 0 ≤ max 0 qs.sum / summedBound Ops.rat bds ∧ max 0 qs.sum / summedBound Ops.rat bds ≤ 1 := by
+  obtain ⟨h1, h2, h3, _, _⟩ := sendRoot_spec _ _ _ hk _ _ _ _ _ _ _ h
+  rw [factorDerivative_eq] at h1 h3
+  refine ⟨?_, h2, ?_, div_nonneg (le_max_left _ _) hB.le, (div_le_one hB).mpr hE⟩
+  · rw [h1]; exact accept_unit_iff _ _ r hB hr
+  · rw [h3]; exact warns_false_of_le _ _ (le_trans (le_max_right _ _) hE)
+
+/-- zero true rate: if the sum of ALL pairwise true derivatives is not positive the event is never confirmed and no
+uniform number is drawn — whatever the bounds of the single pairs, whatever the draw -/
+theorem root_zero_rate_rejected (c : Consts ℚ) (kind : Nat) (hk : kind ≠ 8) (uc : Bool) (et : Time ℚ)
+    (ist branches : List (CNode ℚ)) (bds qs : List ℚ) (dr : Draw ℚ) (hq : qs.sum ≤ 0) {st' cf w cs ins u}
+    (h : sendRoot Ops.rat c kind uc et ist branches bds qs dr = .out st' cf w cs ins u) :
+    cf = false ∧ u = none ∧ velocities st' = velocities branches := by
+  obtain ⟨h1, h2, _, _, h5⟩ := sendRoot_spec _ _ _ hk _ _ _ _ _ _ _ h
+  rw [factorDerivative_eq] at h1 h5
+  have hn : ¬ ((0:ℚ) < qs.sum) := not_lt.mpr hq
+  have hcf : cf = false := by rw [h1]; simp [confirmLeaf, hn]
+  refine ⟨hcf, ?_, (h2 hcf).2⟩
+  rw [h5]; simp [hn]
+
+/-! ### the rates of the double loop: a table `q i j`, `b i j` (active leaf `i`, target leaf `j`) -/
+
+theorem forall₂_flatten {R : ℚ → ℚ → Prop} (qss bss : List (List ℚ)) (h : List.Forall₂ (List.Forall₂ R) qss bss) :
+    List.Forall₂ R qss.flatten bss.flatten := by
+  induction h with
+  | nil => exact .nil
+  | cons hrow _ ih =>
+    simp only [List.flatten_cons]
+    induction hrow with
+    | nil => simpa using ih
+    | cons hab _ ih2 => exact .cons hab ih2
+
+/-- **the thinned rate of the root-active sum**: if every pair's true derivative is at most the positive part of
+the pair's bound, then `E = max(0, Σ_i Σ_j q_ij)` is at most `B = Σ_i Σ_j max(0, b_ij)` (the two numbers the handler
+accumulates in its double loop), and proposing at rate `B` and confirming with probability `E/B ∈ [0,1]` gives the
+rate `E`. -/
+theorem root_thinned_rate (qss bss : List (List ℚ))
+    (h : List.Forall₂ (List.Forall₂ fun q b => q ≤ max 0 b) qss bss) :
+    let B := summedBound Ops.rat bss.flatten
+    let E := max 0 (factorDerivative Ops.rat qss.flatten)
+    E = max 0 (qss.map List.sum).sum ∧ B = (bss.map fun row => (row.map (max 0)).sum).sum ∧ E ≤ B
+      ∧ (0 < B → B * (E / B) = E ∧ 0 ≤ E / B ∧ E / B ≤ 1) := by
+  intro B E
+  have hE : E = max 0 (qss.map List.sum).sum := by
+    simp only [E, factorDerivative_eq, List.sum_flatten]
+  have hBsum : B = (bss.map fun row => (row.map (max 0)).sum).sum := by
+    simp only [B, summedBound_eq, List.map_flatten, List.sum_flatten, List.map_map, Function.comp_def]
+  have hEB : E ≤ B := by
+    have := summed_dominates' _ _ (forall₂_flatten _ _ h)
+    simpa only [E, B, summedBound_eq, factorDerivative_eq] using this
+  refine ⟨hE, hBsum, hEB, fun hB => ⟨mul_div_cancel₀ E hB.ne', div_nonneg ?_ hB.le, (div_le_one hB).mpr hEB⟩⟩
+  exact le_max_left _ _
+
+/-- the two-leaf style comparison, read as a ratio test against `E = max(0, fd)` (also for `B = 0`) -/
+theorem confirm_iff_ratio (B fd r : ℚ) (hB0 : 0 ≤ B) (hEB : max 0 fd ≤ B) :
+    (0 < fd ∧ B * r < fd) ↔ (0 < max 0 fd ∧ r < max 0 fd / B) := by
+  rcases eq_or_lt_of_le hB0 with hB | hB
+  · have hfd : fd ≤ 0 := by
+      have h1 : fd ≤ max 0 fd := le_max_right _ _
+      rw [← hB] at hEB; exact le_trans h1 hEB
+    rw [max_eq_left hfd]; simp [not_lt.mpr hfd]
+  · rw [lt_div_iff₀ hB, mul_comm r B]
+    constructor
+    · rintro ⟨h0, hlt⟩
+      rw [max_eq_right h0.le]; exact ⟨h0, hlt⟩
+    · rintro ⟨h0, hlt⟩
+      have h0' : 0 < fd := by
+        rcases lt_max_iff.mp h0 with hh | hh
+        · exact absurd hh (lt_irrefl _)
+        · exact hh
+      rw [max_eq_right h0'.le] at hlt; exact ⟨h0', hlt⟩
+
+/-- pairwise domination for a list of pairs `(active charge, target charge, separation)` that all move along `+d`
+with the same speed (all leaves of the active composite object carry the root's velocity) -/
+theorem pairwise_dominated_pairs (pow32 : ℚ → ℚ) (hpow : ∀ x, 0 < x → 0 < pow32 x) (k L : ℚ) (hk : 0 < k)
+    (D : ℚ × ℚ × ℚ → ℚ) (hD : Dominates pow32 k L D) (v : ℚ) (hv : 0 < v) (d : Nat)
+    (pr : List (ℚ × ℚ × (ℚ × ℚ × ℚ))) (hs : ∀ x ∈ pr, inCube L x.2.2) :
+    List.Forall₂ (fun q b => q ≤ max 0 b) (pr.map fun x => trueDeriv D x.1 x.2.1 d x.2.2 v)
+      (pr.map fun x => boundDeriv pow32 k x.1 x.2.1 d x.2.2 v) := by
+  induction pr with
+  | nil => exact .nil
+  | cons x xs ih =>
+    refine .cons ?_ (ih (fun y hy => hs y (List.mem_cons_of_mem _ hy)))
+    have := (rate_dominated_dir pow32 hpow k L hk D hD x.1 x.2.1 v hv d x.2.2 (hs x List.mem_cons_self)).1
+    exact le_trans (le_max_right _ _) this
+
+/-- **C04 for the root-unit-active summed handler (kind 7) with the 1/r bound**, under `Dominates` (hence
+`_partial`, as for kinds 1–6: the domination of the shipped prefactor over the Ewald derivative is a hypothesis).
+`pr` lists ALL (active leaf, target leaf) pairs in loop order as (active charge, target charge, separation); charges
+of either sign.  The summed bounding rate dominates the true rate `E = max(0, Σ_all pairs q)`; no warning; an
+unconfirmed event leaves all velocities unchanged; the event is confirmed iff `0 < E` and `r < E/B`. -/
+theorem root_one_over_r_sound_partial (pow32 : ℚ → ℚ) (hpow : ∀ x, 0 < x → 0 < pow32 x) (k L : ℚ) (hk : 0 < k)
+    (D : ℚ × ℚ × ℚ → ℚ) (hD : Dominates pow32 k L D)
+    (c : Consts ℚ) (uc : Bool) (et : Time ℚ) (ist branches : List (CNode ℚ))
+    (v : ℚ) (hv : 0 < v) (d : Nat) (pr : List (ℚ × ℚ × (ℚ × ℚ × ℚ))) (hs : ∀ x ∈ pr, inCube L x.2.2)
+    (r : ℚ) {st' cf w cs ins u}
+    (h : sendRoot Ops.rat c 7 uc et ist branches
+          (pr.map fun x => boundDeriv pow32 k x.1 x.2.1 d x.2.2 v) (pr.map fun x => trueDeriv D x.1 x.2.1 d x.2.2 v)
+          (.unit r) = .out st' cf w cs ins u) :
+    let B := summedBound Ops.rat (pr.map fun x => boundDeriv pow32 k x.1 x.2.1 d x.2.2 v)
+    let E := max 0 (pr.map fun x => trueDeriv D x.1 x.2.1 d x.2.2 v).sum
+    E ≤ B ∧ w = false ∧ (cf = false → velocities st' = velocities branches) ∧ (cf = true ↔ 0 < E ∧ r < E / B) := by
+  intro B E
+  have hF := pairwise_dominated_pairs pow32 hpow k L hk D hD v hv d pr hs
+  have hEB : E ≤ B := by
+    have := summed_dominates' _ _ hF
+    simp only [E, B, summedBound_eq]; exact this
+  obtain ⟨h1, h2, h3, _, _⟩ := sendRoot_spec _ _ 7 (by decide) _ _ _ _ _ _ _ h
+  rw [factorDerivative_eq] at h1 h3
+  have hB0 : 0 ≤ B := summedBound_nonneg _
+  refine ⟨hEB, ?_, fun hc => (h2 hc).2, ?_⟩
+  · rw [h3]; exact warns_false_of_le _ _ (le_trans (le_max_right _ _) hEB)
+  · rw [h1, confirmLeaf_iff, draw_unit_rat]
+    exact confirm_iff_ratio B _ r hB0 hEB
+
+/-! ### non-vacuity: two dipoles, the whole dipole `(0,·)` moves; event time `5 + 1/2` -/
+
+def dipAct : CNode ℚ :=
+  ⟨⟨[0], [15/100, 2/10, 3/10], 0, some [1, 0, 0], some ⟨5, 1/4⟩⟩, 1,
+   [(⟨[0, 0], [1/10, 2/10, 3/10], 1, some [1, 0, 0], some ⟨5, 1/4⟩⟩, 1/2),
+    (⟨[0, 1], [2/10, 2/10, 3/10], -1, some [1, 0, 0], some ⟨5, 1/4⟩⟩, 1/2)]⟩
+
+-- pairs (0,0)-(3,0), (0,0)-(3,1), (0,1)-(3,0), (0,1)-(3,1): bounds (2, -1, -1/2, 1) -> B = 3; true derivatives
+-- (3/2, -1, -1/4, 1/2) -> Σ = 3/4 (the pair with bound -1 <= 0 has true derivative -1 < 0: dropping it, and the pair
+-- (-1/2, -1/4), would give 2 instead).  r = 1/8: 3/8 < 3/4 confirmed;  r = 1/2: 3/2 >= 3/4 rejected
+-- (a rate of 2 would have confirmed it).
+example : confirmed? (sendRoot Ops.rat exC 7 true ⟨5, 1/2⟩ (timeSliceState Ops.rat exC ⟨5, 1/2⟩ [dipB, dipAct])
+    [dipAct, dipB] [2, -1, -1/2, 1] [3/2, -1, -1/4, 1/2] (.unit (1/8))) = some true := by decide +kernel
+example : confirmed? (sendRoot Ops.rat exC 7 true ⟨5, 1/2⟩ (timeSliceState Ops.rat exC ⟨5, 1/2⟩ [dipB, dipAct])
+    [dipAct, dipB] [2, -1, -1/2, 1] [3/2, -1, -1/4, 1/2] (.unit (1/2))) = some false := by decide +kernel
+
+/-- the hypotheses of `root_thinning_exact` are met by the example (`B = 3`, `E = 3/4`) … -/
+example : ∃ st' w cs ins u, sendRoot Ops.rat exC 7 true ⟨5, 1/2⟩ (timeSliceState Ops.rat exC ⟨5, 1/2⟩ [dipB, dipAct])
+    [dipAct, dipB] [2, -1, -1/2, 1] [3/2, -1, -1/4, 1/2] (.unit (1/8)) = .out st' true w cs ins u :=
+  exists_out_of_confirmed? (by decide +kernel)
+example : (0:ℚ) < summedBound Ops.rat [2, -1, -1/2, 1]
+    ∧ max 0 ([3/2, -1, -1/4, 1/2] : List ℚ).sum ≤ summedBound Ops.rat [2, -1, -1/2, 1] := by decide +kernel
+/-- … and those of `root_thinned_rate` by its 2×2 table -/
+example : List.Forall₂ (List.Forall₂ fun (q b : ℚ) => q ≤ max 0 b) [[3/2, -1], [-1/4, 1/2]] [[2, -1], [-1/2, 1]] := by
+  refine .cons (.cons ?_ (.cons ?_ .nil)) (.cons (.cons ?_ (.cons ?_ .nil)) .nil) <;> norm_num
+
+/-- what the confirmed event does: the velocity of the whole dipole `(0,·)` (root and both leaves) moves to the
+whole dipole `(3,·)` (both leaves get `[1,0,0]`, the root `1/2·[1,0,0] + 1/2·[1,0,0]`) -/
+example : (match sendRoot Ops.rat exC 7 true ⟨5, 1/2⟩ (timeSliceState Ops.rat exC ⟨5, 1/2⟩ [dipB, dipAct])
+    [dipAct, dipB] [2, -1, -1/2, 1] [3/2, -1, -1/4, 1/2] (.unit (1/8)) with
+    | .out st' _ _ _ _ _ => velocities st'
+    | _ => []) = [none, none, none, some [1, 0, 0], some [1, 0, 0], some [1, 0, 0]] := by decide +kernel
+/-- the unconfirmed one leaves all velocities as they were -/
+example : (match sendRoot Ops.rat exC 7 true ⟨5, 1/2⟩ (timeSliceState Ops.rat exC ⟨5, 1/2⟩ [dipB, dipAct])
+    [dipAct, dipB] [2, -1, -1/2, 1] [3/2, -1, -1/4, 1/2] (.unit (1/2)) with
+    | .out st' _ _ _ _ _ => velocities st'
+    | _ => []) = velocities [dipAct, dipB] := by decide +kernel
+/-- kind 8 (no thinning) passes the velocity without any rate -/
+example : confirmed? (sendRoot Ops.rat exC 8 false ⟨5, 1/2⟩ [] [dipAct, dipB] [] [] (.value 0)) = some true := by
+  decide +kernel
+
 end JF.C04
